@@ -109,16 +109,16 @@ theorem C17_entry_points_open_transaction :
   cases e <;> first | (intro _; rfl) | (intro h; cases h)
 
 /-- **Every session emits a word of L.**  For every table `opens` of entry points in which the directly reachable ones
-    ask for a transaction (and a flush that sets `cache.immediate`): for every session mode, pool state, program of
+    ask for a transaction (and a flush that sets `cache.immediate`): for every session mode (optimistic / immediate, ddl or not), pool state, program of
     queries / direct writes / flushes / commits / rollbacks with any statements and user try/excepts, every failure
     oracle and a raising or returning body: the calls sent form a complete word of L. -/
-theorem C17_sessions_emit_L (opens : Entry → Bool) (hO : ∀ e, e.direct = true → opens e = true) (si pool : Bool)
+theorem C17_sessions_emit_L (opens : Entry → Bool) (hO : ∀ e, e.direct = true → opens e = true) (si ddl pool : Bool)
     (prog : List (Op × Bool)) (hwf : ∀ p ∈ prog, p.1.wf = true) (bodyRaises : Bool) (f : Nat → Bool) :
-    let r := session opens true si (A.start pool si) prog bodyRaises f
+    let r := session opens true si ddl (A.start pool si) prog bodyRaises f
     accepts (phaseOf (A.start pool si)) r.evs = true ∧ complete (phaseOf (A.start pool si)) r.evs = true := by
   intro r
   have hI : PonyVerif.Lemmas.TxnEmit.Inv (A.start pool si) := ⟨fun h => by simp [A.start] at h, fun h => by simp [A.start] at h⟩
-  have h := PonyVerif.Lemmas.TxnEmit.session_good opens hO si (A.start pool si) prog bodyRaises f hI hwf
+  have h := PonyVerif.Lemmas.TxnEmit.session_good opens hO si ddl (A.start pool si) prog bodyRaises f hI hwf
   have hrun : runL (phaseOf (A.start pool si)) r.evs = some (phaseOf r.a) := h.1.1
   have hne : phaseOf r.a ≠ .txn := by
     have : r.a.inTx = false := h.2
@@ -132,16 +132,16 @@ theorem C17_sessions_emit_L (opens : Entry → Bool) (hO : ∀ e, e.direct = tru
     for every session mode, pool state, program, failure oracle (fault points), raising or returning body, every initial
     database and every crash point `k` in the calls the session sends: the database holds the state before the session
     plus the first `j` of its committed transactions, each as a whole. -/
-theorem C17_refinement (si pool : Bool) (prog : List (Op × Bool)) (hwf : ∀ p ∈ prog, p.1.wf = true) (bodyRaises : Bool)
+theorem C17_refinement (si ddl pool : Bool) (prog : List (Op × Bool)) (hwf : ∀ p ∈ prog, p.1.wf = true) (bodyRaises : Bool)
     (f : Nat → Bool) (pre : Store) (k : Nat) :
-    let t := (session PonyVerif.Gen.TxnEntry.opens PonyVerif.Gen.TxnEntry.flushSetsImmediate si (A.start pool si) prog bodyRaises f).evs
+    let t := (session PonyVerif.Gen.TxnEntry.opens PonyVerif.Gen.TxnEntry.flushSetsImmediate si ddl (A.start pool si) prog bodyRaises f).evs
     let p := phaseOf (A.start pool si)
     ∃ j, j ≤ (txns p [] t).length ∧ crash (run (Db.init pre) (t.take k)) = ((txns p [] t).take j).foldl applyTx pre := by
   intro t p
   have hb := C17_entry_points_open_transaction
-  have hL := (C17_sessions_emit_L PonyVerif.Gen.TxnEntry.opens hb.2.2.2 si pool prog hwf bodyRaises f).1
+  have hL := (C17_sessions_emit_L PonyVerif.Gen.TxnEntry.opens hb.2.2.2 si ddl pool prog hwf bodyRaises f).1
   have hp : p ≠ .txn := by simp [p, phaseOf, A.start]; split <;> simp
-  have ht : t = (session PonyVerif.Gen.TxnEntry.opens true si (A.start pool si) prog bodyRaises f).evs := by
+  have ht : t = (session PonyVerif.Gen.TxnEntry.opens true si ddl (A.start pool si) prog bodyRaises f).evs := by
     simp only [t]; rw [hb.1]
   rw [ht]
   exact C17_crash_all_or_nothing p hp pre _ hL k
@@ -149,13 +149,13 @@ theorem C17_refinement (si pool : Bool) (prog : List (Op × Bool)) (hwf : ∀ p 
 /-- **The obligation is what the proof needs** (non-vacuity): with an entry point that does not ask for a transaction the
     same model emits a trace outside L - `db.execute` as the first statement of an optimistic session. -/
 theorem C17_entry_not_opening_breaks :
-    accepts .idle (session (fun _ => false) true false (A.start false false) [(.direct .dbExecute [(1, some 1)], false)] false
+    accepts .idle (session (fun _ => false) true false false (A.start false false) [(.direct .dbExecute [(1, some 1)], false)] false
       (fun _ => false)).evs = false := by decide
 
 /-- a non-trivial session: a query, a raw write, a flush with a many-to-many statement, a caught failing write, an explicit
     commit, more writes; the third call fails -/
 example :
-    (session PonyVerif.Gen.TxnEntry.opens true false (A.start true false)
+    (session PonyVerif.Gen.TxnEntry.opens true false false (A.start true false)
       [(.query, false), (.direct .dbExecute [(1, some 1)], true), (.flush [(.saveCreated, [(2, some 2)]), (.m2mAdd, [(3, some 3)])], false),
        (.commit [], false), (.direct .bulkDelete [(2, none)], false)] false (fun i => i == 2)).evs
     = [⟨.read, true⟩, ⟨.begin, true⟩, ⟨.write [(1, some 1)], false⟩, ⟨.write [(2, some 2)], true⟩, ⟨.write [(3, some 3)], true⟩,
